@@ -498,6 +498,17 @@ func (a *Sources) UnmarshalBinary(buf []byte) error {
 	return nil
 }
 
+// sourcesOrDatabasePrivileges returns the privileges required to read the given sources.
+// A cardinality statement without a FROM clause reads the database named by its ON clause
+// (or the default database when that is empty), so it requires read access to that
+// database, exactly like the statements' non-EXACT forms, instead of requiring nothing.
+func sourcesOrDatabasePrivileges(database string, sources Sources) (ExecutionPrivileges, error) {
+	if len(sources) == 0 {
+		return ExecutionPrivileges{{Admin: false, Name: database, Privilege: ReadPrivilege}}, nil
+	}
+	return sources.RequiredPrivileges()
+}
+
 // RequiredPrivileges recursively returns a list of execution privileges required.
 func (a Sources) RequiredPrivileges() (ExecutionPrivileges, error) {
 	var ep ExecutionPrivileges
@@ -2413,7 +2424,7 @@ func (s *ShowSeriesCardinalityStatement) RequiredPrivileges() (ExecutionPrivileg
 	if !s.Exact {
 		return ExecutionPrivileges{{Admin: false, Name: s.Database, Privilege: ReadPrivilege}}, nil
 	}
-	return s.Sources.RequiredPrivileges()
+	return sourcesOrDatabasePrivileges(s.Database, s.Sources)
 }
 
 // DefaultDatabase returns the default database from the statement.
@@ -2618,7 +2629,7 @@ func (s *ShowMeasurementCardinalityStatement) RequiredPrivileges() (ExecutionPri
 	if !s.Exact {
 		return ExecutionPrivileges{{Admin: false, Name: s.Database, Privilege: ReadPrivilege}}, nil
 	}
-	return s.Sources.RequiredPrivileges()
+	return sourcesOrDatabasePrivileges(s.Database, s.Sources)
 }
 
 // DefaultDatabase returns the default database from the statement.
@@ -3053,7 +3064,7 @@ func (s *ShowTagKeyCardinalityStatement) String() string {
 
 // RequiredPrivileges returns the privilege required to execute a ShowTagKeyCardinalityStatement.
 func (s *ShowTagKeyCardinalityStatement) RequiredPrivileges() (ExecutionPrivileges, error) {
-	return s.Sources.RequiredPrivileges()
+	return sourcesOrDatabasePrivileges(s.Database, s.Sources)
 }
 
 // DefaultDatabase returns the default database from the statement.
@@ -3208,7 +3219,7 @@ func (s *ShowTagValuesCardinalityStatement) String() string {
 
 // RequiredPrivileges returns the privilege required to execute a ShowTagValuesCardinalityStatement.
 func (s *ShowTagValuesCardinalityStatement) RequiredPrivileges() (ExecutionPrivileges, error) {
-	return s.Sources.RequiredPrivileges()
+	return sourcesOrDatabasePrivileges(s.Database, s.Sources)
 }
 
 // DefaultDatabase returns the default database from the statement.
@@ -3277,7 +3288,7 @@ func (s *ShowFieldKeyCardinalityStatement) String() string {
 
 // RequiredPrivileges returns the privilege required to execute a ShowFieldKeyCardinalityStatement.
 func (s *ShowFieldKeyCardinalityStatement) RequiredPrivileges() (ExecutionPrivileges, error) {
-	return s.Sources.RequiredPrivileges()
+	return sourcesOrDatabasePrivileges(s.Database, s.Sources)
 }
 
 // DefaultDatabase returns the default database from the statement.
